@@ -156,18 +156,20 @@ theorem composite_monotone (u : Ups) (hwf : u.wf) (hne : u ≠ []) (sender : Str
   · simp only [hk, if_false] at hg
     exact hle k x (Ups.mem_of_get? u k x hg)
 
-/-- every `ProcessEventBatchRequest` tells the handler the registry's composite watermark as of the watermark messages
-received so far (including the one being handled): with `composite_eq_min`, the minimum over the upstream runners.
-Holds for every event sequence, every batch size and every timer store. Before the first watermark message the field
-is `time.Time{}` (`reportAll` of no messages), which is below the epoch. -/
+/-- every `ProcessEventBatchRequest` tells the handler the composite watermark of the registry of the **current
+deployment** as of the watermark messages received since that deployment (including the one being handled): with
+`composite_eq_min`, the minimum over the upstream runners. Holds for every history of keyed events, watermark messages
+and redeployments (`HandleDeploy` again on the same operator: every runner back to "not reported"), every batch size and
+every timer store. Before the first watermark message of a deployment the field is `time.Time{}` (`reportAll` of no
+messages), which is below the epoch — never a value of an earlier deployment. -/
 theorem handler_sees_composite (store : Store) (ids : List String) (maxBatch : Nat) (pre : List OpEv) (e : OpEv) :
     ∀ r ∈ ((Op.runState ⟨Registry.new store ids, [], maxBatch⟩ pre).step e).2,
-      r.told = (reportAll (Ups.init ids, zeroTime) (wmsgs (pre ++ [e]))).2 := by
+      r.told = (reportAll (Ups.init (epochOf (ids, []) (pre ++ [e])).1, zeroTime) (epochOf (ids, []) (pre ++ [e])).2).2 := by
   intro r hr
-  have h1 := runState_tracks pre ⟨Registry.new store ids, [], maxBatch⟩
-  have h2 := (step_tracks (Op.runState ⟨Registry.new store ids, [], maxBatch⟩ pre) e).2.2 r hr
-  rw [h2, wmsgs_append, reportAll_append, h1]
-  rfl
+  have h0 : tracked ⟨Registry.new store ids, [], maxBatch⟩ (ids, []) := rfl
+  have h1 := runState_tracks pre _ _ h0
+  have h2 := (step_tracks _ _ h1 e).2 r hr
+  rw [h2, epochOf_append]
 
 /-- handling a watermark message only adds `TimerExpired` events whose timestamp is at or before the new composite
 watermark: no timer later than the minimum of the upstreams fires. (Events are conserved: what the handler received
@@ -200,6 +202,12 @@ example : (reportAll (Ups.init ["a", "b"], zeroTime) [("a", 10)]).2 = 0 ∧
 example : delivered 4 (Watermarker.new 0)
     [.events [10], .events [], .events [], .events [], .tick, .events [100], .events [], .events [], .events [], .tick] =
     [.ev 10, .wm 9, .ev 100, .wm 99] := by decide
+
+/-- after a redeployment the handler is told `time.Time{}` again until a runner of the new deployment reports -/
+example : ((Op.runState ⟨Registry.new (Store.new [] 1 0 1 64) ["a"], [], 1⟩
+      [.wmark "a" 100, .redeploy (Store.new [] 1 0 1 64) ["a"]]).step (.keyed [0x6b] [])).2.map (·.told) = [zeroTime] ∧
+    ((Op.runState ⟨Registry.new (Store.new [] 1 0 1 64) ["a"], [], 1⟩
+      [.wmark "a" 100]).step (.keyed [0x6b] [])).2.map (·.told) = [100] := by decide
 
 /-- a report above the previous one cannot lower the composite -/
 example : (Ups.init ["a", "b"]).composite ≤ ((Ups.init ["a", "b"]).report "a" 10).2 := by decide
